@@ -22,8 +22,8 @@ store/smt.go, and `storeProofTree` on the two prefixes `facts` reads off store/s
 * `source_validates_total_bits`, `source_checks_value_length`  generated facts: `validNodeKey` bounds the total key bits by
                                    the tree's key length, and `VerifyProof` validates value lengths (the verifier that
                                    exists is `verifyFixed true`)
-* `source_is_repaired`, `store_reads_written_prefix`  generated facts: store/smt.go has the key-validating algorithm, and
-                                   `NewReadOnly` opens the prefix `Root()` writes. **Reverting either fix breaks these.**
+* `source_is_repaired`, `store_reads_written_prefix`, `readonly_builds_fresh_tree`  generated facts: store/smt.go has the
+                                   key-validating algorithm, `NewReadOnly` opens the prefix `Root()` writes, on a fresh tree. **Reverting either fix breaks these.**
 * `fixed_sound`          for every key length, tree, key, value and EVERY proof (honest, for another key, truncated,
                          re-ordered, bit-flipped, malformed): an accepted statement is true — under the explicit hash
                          hypothesis `H4Inj H4` (never an axiom)
@@ -161,6 +161,11 @@ theorem source_is_repaired : Gen.SmtFacts.verifyProofValidatesKeys = true := by 
 prefix `Store.Root()` / `Commit()` write it under. Reverting commit 28c6f9a breaks this obligation. -/
 theorem store_reads_written_prefix : Gen.SmtFacts.readOnlyReadsPrefix = Gen.SmtFacts.rootWritesPrefix := by decide
 
+/-- **Tie to the source (generated on every run).** The `sc` field of the `&Store{…}` literal `Store.NewReadOnly(v)` returns
+is a fresh `NewDefaultSMT(NewTxn(…))` over the database — never the live store's own `s.sc`, which between `Root()` and
+`Commit()` is the speculative tree of the next, uncommitted block. -/
+theorem readonly_builds_fresh_tree : Gen.SmtFacts.readOnlyBuildsFreshCommitment = true := by decide
+
 
 /-- the verifier rejects every corpus scenario of part A (and still accepts the honest statements) -/
 theorem fixed_rejects_witnesses :
@@ -210,14 +215,16 @@ theorem fixed_complete (strict : Bool) (H : Bytes → Bytes) (H4 : Bytes → Byt
   verifyFixed_complete strict H H4 hn h hs hz userKey value hres
 
 /-- **Store-level completeness**, with the prefixes the source has now: the tree `NewReadOnly(v)` serves proofs from is
-the tree committed for `v`, so the proof it serves for any non-reserved key verifies against the root committed for `v`
+the tree committed for `v` — whatever tree (`live`) the live store holds for its block in progress —, so the proof it serves for any non-reserved key verifies against the root committed for `v`
 (production key length 160). -/
 theorem store_complete (strict : Bool) (H : Bytes → Bytes) (H4 : Bytes → Bytes → Bytes → Bytes → Bytes) {committed : Trie}
     {S : KMap} (h : committed.Rep 160 S) (hs : S.HasSentinels 160) (hz : strict = true → WellSized H4 160 S)
     (userKey value : Bytes)
     (hres : keyOfBytes 160 (H userKey) ≠ rootKey 160 ∧ keyOfBytes 160 (H userKey) ≠ minKey 160 ∧
-      keyOfBytes 160 (H userKey) ≠ maxKey 160) :
-    let served := storeProofTree Gen.SmtFacts.rootWritesPrefix Gen.SmtFacts.readOnlyReadsPrefix 160 committed
+      keyOfBytes 160 (H userKey) ≠ maxKey 160)
+    (live : Option Trie) (sameVersion : Bool) :
+    let served := readOnlyServes Gen.SmtFacts.readOnlyBuildsFreshCommitment live sameVersion
+      (storeProofTree Gen.SmtFacts.rootWritesPrefix Gen.SmtFacts.readOnlyReadsPrefix 160 committed)
     served = committed ∧
     (S (keyOfBytes 160 (H userKey)) = some (H value) →
       verifyFixed strict H H4 160 userKey value true (committed.value H4) (prove H4 served (keyOfBytes 160 (H userKey))) = .accept) ∧
@@ -225,7 +232,9 @@ theorem store_complete (strict : Bool) (H : Bytes → Bytes) (H4 : Bytes → Byt
       verifyFixed strict H H4 160 userKey value false (committed.value H4) (prove H4 served (keyOfBytes 160 (H userKey))) = .accept) := by
   have hserved : storeProofTree Gen.SmtFacts.rootWritesPrefix Gen.SmtFacts.readOnlyReadsPrefix 160 committed = committed := by
     simp [storeProofTree, store_reads_written_prefix]
-  simp only [hserved]
+  have hro : ∀ t, readOnlyServes Gen.SmtFacts.readOnlyBuildsFreshCommitment live sameVersion t = t := by
+    intro t; simp [readOnlyServes, readonly_builds_fresh_tree]
+  simp only [hserved, hro]
   exact ⟨trivial, fixed_complete strict H H4 (by decide) h hs hz userKey value hres⟩
 
 /-- the verifier is a total function without a crash or hang outcome -/
